@@ -27,11 +27,16 @@ Init == /\ pc = [t \in Threads |-> "start"] /\ snap = [t \in Threads |-> 0] /\ c
 
 Log(t, point) == hist' = IF History THEN Append(hist, <<t, point>>) ELSE hist
 
-TakeSnapshot(t) ==
+(* db.snapshot() reads the published runs first and the rest afterwards; the value a statement will see is fixed by the first read *)
+SnapshotRuns(t) ==
   /\ pc[t] = (IF Order = "snapshot-first" THEN "start" ELSE "locked")
   /\ snap' = [snap EXCEPT ![t] = ctr]
+  /\ pc' = [pc EXCEPT ![t] = "snapping"]
+  /\ Log(t, "read.after_runs") /\ UNCHANGED <<ctr, holder, done, pending>>
+TakeSnapshot(t) ==
+  /\ pc[t] = "snapping"
   /\ pc' = [pc EXCEPT ![t] = IF Order = "snapshot-first" THEN "snapped" ELSE "ready"]
-  /\ Log(t, "capi.write.after_snapshot") /\ UNCHANGED <<ctr, holder, done, pending>>
+  /\ Log(t, "capi.write.after_snapshot") /\ UNCHANGED <<snap, ctr, holder, done, pending>>
 
 Acquire(t) ==
   /\ pc[t] = (IF Order = "snapshot-first" THEN "snapped" ELSE "start")
@@ -54,7 +59,7 @@ Publish(t) ==         \* publish labels and the run: visible to new snapshots; r
   /\ Log(t, "done") /\ UNCHANGED <<snap, pending>>
 
 Terminated == \A t \in Threads : pc[t] = "done"
-Next == (\E t \in Threads : TakeSnapshot(t) \/ Acquire(t) \/ ExecuteDurable(t) \/ Publish(t)) \/ (Terminated /\ UNCHANGED vars)
+Next == (\E t \in Threads : SnapshotRuns(t) \/ TakeSnapshot(t) \/ Acquire(t) \/ ExecuteDurable(t) \/ Publish(t)) \/ (Terminated /\ UNCHANGED vars)
 Spec == Init /\ [][Next]_vars /\ WF_vars(Next)
 
 NoLostUpdate == Terminated => ctr = done
